@@ -6,9 +6,19 @@
 hydro_lang::setup!();
 
 #[cfg(test)]
+mod c31;
+#[cfg(test)]
+mod c34;
+#[cfg(test)]
 mod c36;
 #[cfg(test)]
+mod c37;
+#[cfg(test)]
 mod c38;
+#[cfg(test)]
+mod c39;
+#[cfg(test)]
+mod c40;
 #[cfg(test)]
 mod corpus;
 #[cfg(test)]
